@@ -7,9 +7,12 @@
      - one node per line, terminated by a newline (byte 10);
      - a node at depth d is indented by exactly d spaces (byte 32);
      - then the label (node kind, possibly followed by more words);
-     - then, iff the node has k > 0 children, the suffix " (children k)" with k in canonical
-       decimal; a node without children has no suffix ("(children 0)" never occurs in the
-       113774 golden files);
+     - then the suffix " (children k)" with k in canonical decimal, k = the number of nodes
+       printed directly beneath; for a node without children the suffix is absent ("absent
+       means zero"; this is the only form in the 113774 golden files) or the explicit
+       " (children 0)" (the count still equals the number of nodes beneath it, so the property
+       holds; /repo prints it e.g. for an empty select list) -- the two spellings of a leaf
+       are identified by [norm_line];
      - children follow their parent in pre-order.                                          *)
 From Coq Require Import List NArith Bool Decimal.
 Import ListNotations.
@@ -65,7 +68,7 @@ Fixpoint p_tree (fuel : nat) (d : nat) (ls : list line) : option (rose * list li
           if Nat.eqb (indent l) d then
             match nkids l with
             | None => Some (Node (label l) [], rest)
-            | Some O => None                      (* "(children 0)" is never printed *)
+            | Some O => None                      (* not canonical; parse_lines normalises first *)
             | Some k =>
                 match p_n (p_tree f (S d)) k rest with
                 | Some (ks, rest') => Some (Node (label l) ks, rest')
@@ -76,9 +79,15 @@ Fixpoint p_tree (fuel : nat) (d : nat) (ls : list line) : option (rose * list li
       end
   end.
 
-(* the whole list is exactly one tree rooted at indentation 0 *)
+(* "(children 0)" on a line is the same statement as no suffix: a node without children.
+   [render] prints the canonical spelling (no suffix); a list of lines is read modulo this. *)
+Definition norm_line (l : line) : line :=
+  mkLine (indent l) (label l) (match nkids l with Some O => None | k => k end).
+
+(* the whole list is exactly one tree rooted at indentation 0 (up to the spelling of leaves);
+   the recogniser itself is strict (it sees canonical lines only) *)
 Definition parse_lines (ls : list line) : option rose :=
-  match p_tree (length ls) 0 ls with
+  match p_tree (length ls) 0 (map norm_line ls) with
   | Some (t, []) => Some t
   | _ => None
   end.
